@@ -380,11 +380,7 @@ def chunkWindowClass (x : CdsD) (c : Win) (lo hi : Nat) (answered : Bool) : Stri
     if (cdsBasesIn x c).isEmpty then "no-base-in-chunk-answers-for-chromosome"
     else if x.exons.length == 1 && fivePrimeFrame x != some 0 &&
             ((fivePrime x).map inBoth) == some false then "single-exon-5p-cut"
-    else
-      -- positions (retained ones for a multi-exon CDS, all of them for a single exon) 5' of the window
-      let reading := if x.exons.length == 1 then bases ci.loc else ci.kept
-      let cut5 := (reading.takeWhile (fun p => !(inWin lo hi p))).length
-      if cut5 % 3 != 0 then "window-cuts-5p-on-chunk" else "unclassified"
+    else "unclassified"      -- (F-C07d, a window cutting the 5' end on a chunk, is repaired: d8ca372 — no class any more)
 
 /-! ### clause "chunk-relative frames" (only for a CDS in ONE uninterrupted reading frame: the documentation of
     `chunk_relative_frames` says programmed frameshifts are lost) -/
